@@ -1043,6 +1043,14 @@ func (p *Parser) parseTernary(conditionNode ast.Node) ast.Node {
 func (p *Parser) parseGroupedExpr() ast.Node {
 	p.nextToken()
 	exp := p.parseExpression(LOWEST)
+	if exp == nil {
+		// e.g. a line break after the "(": never hand a nil node to the caller
+		// without an error
+		if p.err == nil {
+			p.setTokenError(p.curToken, "invalid syntax in grouped expression")
+		}
+		return nil
+	}
 	if !p.expectPeek("grouped expression", token.RPAREN) {
 		return nil
 	}
@@ -1071,6 +1079,12 @@ func (p *Parser) parseIf() ast.Node {
 			p.nextToken() // move to the "if"
 			nestedIfToken := p.curToken
 			nestedIf := p.parseIf()
+			if nestedIf == nil {
+				if p.err == nil {
+					p.setTokenError(p.curToken, "invalid syntax in else if expression")
+				}
+				return nil
+			}
 			alternative := ast.NewBlock(nestedIfToken, []ast.Node{nestedIf})
 			return ast.NewIf(ifToken, cond, consequence, alternative)
 		}
@@ -1436,7 +1450,19 @@ func (p *Parser) parseExprList(end token.Type) []ast.Expression {
 		if err := p.nextToken(); err != nil {
 			return nil
 		}
-		list = append(list, p.parseExpression(LOWEST))
+		expr := p.parseExpression(LOWEST)
+		if expr == nil {
+			// Never store a nil element. At the end of the input the missing
+			// closing token is reported below.
+			if p.err == nil && !p.curTokenIs(token.EOF) {
+				p.setTokenError(p.curToken, "invalid syntax in list expression")
+			}
+			if p.err != nil {
+				return nil
+			}
+			break
+		}
+		list = append(list, expr)
 	}
 	for p.peekTokenIs(token.NEWLINE) {
 		if err := p.nextToken(); err != nil {
@@ -1486,7 +1512,17 @@ func (p *Parser) parseNodeList(end token.Type) []ast.Node {
 		if err := p.nextToken(); err != nil {
 			return nil
 		}
-		list = append(list, p.parseNode(LOWEST))
+		node := p.parseNode(LOWEST)
+		if node == nil {
+			if p.err == nil && !p.curTokenIs(token.EOF) {
+				p.setTokenError(p.curToken, "invalid syntax in list expression")
+			}
+			if p.err != nil {
+				return nil
+			}
+			break
+		}
+		list = append(list, node)
 	}
 	for p.peekTokenIs(token.NEWLINE) {
 		if err := p.nextToken(); err != nil {
@@ -1706,6 +1742,12 @@ func (p *Parser) parseMapOrSet() ast.Node {
 		p.nextToken() // move to the ":"
 		p.nextToken() // move to the first value
 		firstValue := p.parseExpression(LOWEST)
+		if firstKey == nil || firstValue == nil {
+			if p.err == nil {
+				p.setTokenError(p.curToken, "invalid syntax in map expression")
+			}
+			return nil
+		}
 		pairs := map[ast.Expression]ast.Expression{firstKey: firstValue}
 		for !p.peekTokenIs(token.RBRACE) {
 			if p.peekTokenIs(token.NEWLINE) {
@@ -1742,6 +1784,12 @@ func (p *Parser) parseMapOrSet() ast.Node {
 		}
 		return ast.NewMap(firstToken, pairs)
 	} else { // This is a set
+		if firstKey == nil {
+			if p.err == nil {
+				p.setTokenError(p.curToken, "invalid syntax in set expression")
+			}
+			return nil
+		}
 		items := []ast.Expression{firstKey}
 		if p.peekTokenIs(token.COMMA) {
 			p.nextToken()
@@ -1762,6 +1810,12 @@ func (p *Parser) parseMapOrSet() ast.Node {
 				return nil
 			}
 			key := p.parseExpression(LOWEST)
+			if key == nil {
+				if p.err == nil {
+					p.setTokenError(p.curToken, "invalid syntax in set expression")
+				}
+				return nil
+			}
 			items = append(items, key)
 			if !p.peekTokenIs(token.COMMA) {
 				break
